@@ -115,3 +115,16 @@ func vfMiscCodecInfo(sm *SessionManager) (hasBlock bool, maxLength int, ok bool)
 	}
 	return !b.IsNil(), int(m.Int()), true
 }
+
+// vfMiscLoad reads a session from the given cookies through the real SessionManager and returns what its getters say
+func vfMiscLoad(sm *SessionManager, cookies map[string]string) (auth bool, email, acc, ref string, err error) {
+	req, _ := http.NewRequest("GET", "https://sweep.invalid/", nil)
+	for n, v := range cookies {
+		req.AddCookie(&http.Cookie{Name: n, Value: v})
+	}
+	sd, err := sm.GetSession(req)
+	if err != nil {
+		return false, "", "", "", err
+	}
+	return sd.GetAuthenticated(), sd.GetEmail(), sd.GetAccessToken(), sd.GetRefreshToken(), nil
+}
